@@ -329,6 +329,15 @@ func c08PathShapes(r *ev.Result, base string) {
 		"path-is-a-symlink":    root + "/cache-link", /* -> real/target.txtar, which does not exist at first */
 	}
 	os.Symlink(filepath.Join("real", "target.txtar"), filepath.Join(root, "cache-link"))
+	/* Paths relative to the current directory (what -tls-certificate-cache
+	cert.txtar gives, and the default when there is no home directory). */
+	if cwd, err := os.Getwd(); nil == err && nil == os.Chdir(root) {
+		defer os.Chdir(cwd)
+		shapes["relative-plain"] = "rel-cert.txtar"
+		shapes["relative-nested"] = "loot/tls/cert.txtar"
+		shapes["relative-dot"] = "./reldot/cert.txtar"
+		shapes["relative-dotdot"] = "real/../relup/cert.txtar"
+	}
 	n := 0
 	for name, cache := range shapes {
 		v := func(sig, what string) {
